@@ -105,6 +105,11 @@ func pruneEmpty(dst, src proto.Message, mask fmutils.NestedMask) {
 			return true
 		}
 		if !srcPr.Has(d) {
+			if len(fieldMask) > 0 && d.Kind() == protoreflect.MessageKind && d.Cardinality() != protoreflect.Repeated {
+				// the mask names only some fields of this message: clear those, the rest of the message is not ours to touch
+				fieldMask.Prune(dstPr.Get(d).Message().Interface())
+				return true
+			}
 			dstPr.Clear(d)
 			return true
 		}
